@@ -115,17 +115,28 @@ pub fn check_frame(bytes: &[u8], spec: &MsgSpec, opt: Option<&OptSpec>, mode: Mo
             return out;
         }
     }
-    let mut add = m.additional.iter();
+    // The pseudo-record may sit anywhere in the additional section (RFC 6891 §6.1.1; the
+    // statement only says it is counted once): take the first root-owned OPT whose removal
+    // leaves the intended records in their order.
+    let mut add_rest: Vec<&refdns::RR> = m.additional.iter().collect();
     if let Some(o) = opt {
-        // simple-dns writes the pseudo-record in front of the additional records
-        let rr = add.next().unwrap();
         let want_len: usize = o.codes.iter().map(|(_, d)| d.len() + 4).sum();
-        if rr.rtype != t::OPT || !rr.owner.is_empty() {
-            out.push(f("C04", "frame:opt-missing".into(), "first additional entry is not the OPT pseudo-record".into()));
-        } else if rr.rdlen != want_len {
-            out.push(f("C04", "frame:rdlength:t41".into(), format!("OPT RDLENGTH {} but {} option bytes intended", rr.rdlen, want_len)));
+        let cands: Vec<usize> = (0..m.additional.len()).filter(|&i| m.additional[i].rtype == t::OPT && m.additional[i].owner.is_empty()).collect();
+        let aligned = |p: usize| -> bool {
+            m.additional.iter().enumerate().filter(|(i, _)| *i != p).map(|(_, r)| r).zip(&spec.additional).all(|(r, w)| r.rtype == w.rtype && r.owner == w.owner)
+        };
+        match cands.iter().copied().find(|&p| aligned(p)).or(cands.first().copied()) {
+            None => out.push(f("C04", "frame:opt-missing".into(), "no root-owned OPT pseudo-record in the additional section".into())),
+            Some(p) => {
+                let rr = &m.additional[p];
+                if rr.rdlen != want_len {
+                    out.push(f("C04", "frame:rdlength:t41".into(), format!("OPT RDLENGTH {} but {} option bytes intended", rr.rdlen, want_len)));
+                }
+                add_rest.remove(p);
+            }
         }
     }
+    let add = add_rest.into_iter();
     let n_opt = m.additional.iter().filter(|r| r.rtype == t::OPT).count();
     let n_opt_intended = opt.is_some() as usize + spec.additional.iter().filter(|r| r.rtype == t::OPT).count();
     if n_opt != n_opt_intended {
@@ -409,13 +420,26 @@ pub fn check_pointers(bytes: &[u8], spec: &MsgSpec, opt: Option<&OptSpec>, origi
         for r in &spec.authority {
             w.rec(r)?;
         }
-        if let Some(o) = opt {
+        // the OPT pseudo-record may be written anywhere in the additional section: it is
+        // skipped where the bytes show a root-owned type-41 record that the next intended
+        // record does not account for
+        let mut opt_left = opt;
+        let opt_here = |w: &Walk| w.b.len() >= w.pos + 3 && w.b[w.pos] == 0 && w.b[w.pos + 1] == 0 && w.b[w.pos + 2] == 41;
+        for r in &spec.additional {
+            if let Some(o) = opt_left {
+                if opt_here(&w) && !(r.rtype == t::OPT && r.owner.is_empty()) {
+                    w.skip(1 + 10)?;
+                    let l: usize = o.codes.iter().map(|(_, d)| d.len() + 4).sum();
+                    w.skip(l)?;
+                    opt_left = None;
+                }
+            }
+            w.rec(r)?;
+        }
+        if let Some(o) = opt_left {
             w.skip(1 + 10)?;
             let l: usize = o.codes.iter().map(|(_, d)| d.len() + 4).sum();
             w.skip(l)?;
-        }
-        for r in &spec.additional {
-            w.rec(r)?;
         }
         Ok(())
     })();
